@@ -445,7 +445,14 @@ func (w *wdag) Drive(s *simrt.Sched, out *RunResult) {
 			s.Report(simrt.Violation{Prop: "C04", Class: "completion-mismatch", Signature: "unselected-completed", Detail: lbl(i)})
 		}
 	}
-	if !externallyCancelled && !ffTriggered {
+	if externallyCancelled && err == nil && !ffTriggered {
+		// a cancelled walk that reports no error claims that everything was resolved
+		simrt.Probe("wdag-cancelled-walk-returned-nil")
+	}
+	// a cancelled walk that nevertheless reports no error and no failed target claims a
+	// complete walk: it is held to the keep-going resolution rules as well
+	cancelledButClean := externallyCancelled && err == nil && !cs.FailFast && len(errs) == 0
+	if (!externallyCancelled || cancelledButClean) && !ffTriggered {
 		// keep-going semantics (also fail-fast when nothing failed)
 		if err != nil {
 			s.Report(simrt.Violation{Prop: "C04", Class: "walk-error", Signature: "unexpected-error", Detail: fmt.Sprint("Walk returned ", err)})
